@@ -33,7 +33,7 @@ BUDGET = {"quick": (4, 400), "thorough": (16, 4000)}
 ASSUMPTIONS = ["From(...) is the first positional argument of a predicate-form term",
                "entities compare by identity (eq=False)"]
 
-FIELDS = {"Ent": ["k", "a", "b", "s", "tags", "o", "ref"], "EntSub": ["k", "a", "b", "s", "tags", "o", "ref"],
+FIELDS = {"Ent": ["k", "a", "b", "s", "tags", "o", "ref"], "EntV": ["k", "a", "b", "s", "tags", "o", "ref"], "EntSub": ["k", "a", "b", "s", "tags", "o", "ref"],
           "EntPlain": ["k", "a", "b", "s", "tags", "o", "ref"], "Other": ["k", "a", "ref"]}
 
 
@@ -56,7 +56,7 @@ def _value_for(draw, field, P, recs, depth, doms):
 
 
 def _term(draw, P, recs, depth, doms):
-    cls = draw(st.sampled_from(["Ent", "Ent", "Ent", "EntSub", "EntPlain", "Other"]))
+    cls = draw(st.sampled_from(["Ent", "Ent", "Ent", "EntSub", "EntPlain", "EntV", "Other"]))
     fields = FIELDS[cls]
     npos = draw(st.sampled_from([0, 0, 0, 1, 2]))
     npos = min(npos, 2 if cls != "Other" else 2)
@@ -122,12 +122,12 @@ def _matches(o, term, conts, uenv):
                 return False
         elif v[0] == "uvar":
             if uenv is None:
-                if not any(got is m for m in conts[v[1]] if isinstance(m, Ent)):
+                if not any(got == m for m in conts[v[1]] if isinstance(m, Ent)):
                     return False
-            elif not (got is uenv[v[1]]):
+            elif not (got == uenv[v[1]]):
                 return False
         else:
-            if not any(_matches(m, v[1], conts, uenv) and got is m for m in conts[v[1]["dom"]]):
+            if not any(_matches(m, v[1], conts, uenv) and got == m for m in conts[v[1]["dom"]]):
                 return False
     return True
 
@@ -273,7 +273,10 @@ def check(case) -> Outcome:
         except Exception as e:
             return fail("exception_" + form, f"{form} form of {render(case)['term']}: {type(e).__name__}: {e}; expected "
                                              f"{show_rows(expected)}", nontrivial=nontrivial, classes=classes, features=feats)
-    single = wrapper != "with_var"
+    # ordered, duplicate-free comparison only when no variable is hidden: a nested term's own variable is not selected,
+    # so (as for any projection, cf. C02) a row may repeat once per matching inner object - e.g. two value-equal objects
+    nested_hidden = any(v[0] == "term" for v in term["pos"] + [x for _, x in term["kw"]])
+    single = wrapper != "with_var" and not nested_hidden
     for form in ("predicate", "explicit"):
         bad = compare_lists(expected, results[form]) if single else compare_sets(expected, results[form], False)
         if bad:
